@@ -86,15 +86,18 @@ def its_abs(I: nx.Graph, ids: List[Any]) -> Dict[str, Any]:
         oH[a][b] = oH[b][a] = o2(o[1])
         s = d.get("standard_order", 0)
         std[a][b] = std[b][a] = o2(s if isinstance(s, (int, float)) else 0)
-    return {"n": n, "tG": tG, "tH": tH, "oG": oG, "oH": oH, "std": std, "extra_nodes": len([v for v in I.nodes() if v not in idx])}
+    # the node's own (top-level) labels, next to the (before, after) pair: [element, charge]
+    top = [[elcode(I.nodes[v].get("element")), int(I.nodes[v].get("charge", 0) or 0)] if v in I else [0, 0] for v in ids]
+    return {"n": n, "tG": tG, "tH": tH, "oG": oG, "oH": oH, "std": std, "top": top, "extra_nodes": len([v for v in I.nodes() if v not in idx])}
 
 
 def sub_abs(S: nx.Graph, ids: List[Any]) -> Dict[str, Any]:
     """a sub-ITS (reaction centre / context) relative to the node order `ids` of its parent"""
     idx = {v: k + 1 for k, v in enumerate(ids)}
-    nodes, t, edges = [], [], []
+    nodes, t, edges, top = [], [], [], []
     for v, d in S.nodes(data=True):
         nodes.append(idx.get(v, 0))
+        top.append([elcode(d.get("element")), int(d.get("charge", 0) or 0)])
         gh = d.get("typesGH")
         t.append([tgh(gh[0]), tgh(gh[1])] if gh else [[0, 0, 0, 0], [0, 0, 0, 0]])
     for u, v, d in S.edges(data=True):
@@ -103,7 +106,7 @@ def sub_abs(S: nx.Graph, ids: List[Any]) -> Dict[str, Any]:
             o = (o, o)
         s = d.get("standard_order", 0)
         edges.append([idx.get(u, 0), idx.get(v, 0), o2(o[0]), o2(o[1]), o2(s if isinstance(s, (int, float)) else 0)])
-    return {"nodes": nodes, "t": t, "edges": edges}
+    return {"nodes": nodes, "t": t, "edges": edges, "top": top}
 
 
 # ---------------------------------------------------------------- RDKit -> abstract (independent of MolToGraph)
